@@ -384,3 +384,40 @@ func c17EveryFilterKind(c *Ctx, sitesOf map[string][]*ssa.Call) {
 		}
 	}
 }
+
+// outermostLoopExits: the edges that leave an outermost loop of fn (one that is not nested in another loop) from a block
+// other than its header, panics aside.
+func outermostLoopExits(p *Prog, fn *ssa.Function) []string {
+	heads := loopHeaders(fn)
+	bodies := map[*ssa.BasicBlock]map[*ssa.BasicBlock]bool{}
+	for _, h := range heads {
+		bodies[h] = naturalLoop(h)
+	}
+	var out []string
+	for _, h := range heads {
+		nested := false
+		for _, o := range heads {
+			if o != h && bodies[o][h] {
+				nested = true
+			}
+		}
+		if nested {
+			continue
+		}
+		for _, b := range fn.Blocks {
+			if !bodies[h][b] || b == h {
+				continue
+			}
+			for _, s := range b.Succs {
+				if bodies[h][s] {
+					continue
+				}
+				if _, isPanic := s.Instrs[len(s.Instrs)-1].(*ssa.Panic); isPanic {
+					continue
+				}
+				out = append(out, "the loop at "+p.Pos(blockPos(h))+" is left at "+p.Pos(branchPos(b)))
+			}
+		}
+	}
+	return out
+}
